@@ -179,8 +179,49 @@ class Gen:
         finally:
             ctx.regs = regs
 
+    def array_valued(self, ctx):
+        """a scalar-typed name bound to a whole array: "float A = A*A", "int M = N", "float R = sqrt(B)", "complex Z = -C**2" """
+        r = self.rng
+        src = r.choice(list(ctx.arrays))
+        sty, rows, cols = ctx.arrays[src]
+        same = [n for n, (t, rr, cc) in ctx.arrays.items() if (rr, cc) == (rows, cols) and t != "pname"]
+        a = {"t": "var", "x": src}
+        c = r.random()
+        kinds = {sty}
+        if c < 0.2:
+            e = a
+        elif c < 0.35:
+            e = {"t": "neg", "a": a}
+        elif c < 0.5:
+            e = {"t": "bin", "op": "**", "l": a, "r": I(r.choice([2, 3]))}
+        elif c < 0.6:
+            e = {"t": "fn", "f": r.choice(["sqrt", "exp", "sin", "arctan"]), "a": a}
+            kinds.add("float")
+        else:
+            other = r.choice(same)
+            kinds.add(ctx.arrays[other][0])
+            e = {"t": "bin", "op": r.choice(["+", "-", "*", "*"]), "l": a, "r": {"t": "var", "x": other}}
+            if r.random() < 0.3:
+                e = {"t": "bin", "op": r.choice(["+", "-", "*"]), "l": e, "r": {"t": "var", "x": r.choice(same)}}
+        res = "complex" if "complex" in kinds else ("float" if "float" in kinds else "int")
+        ty = r.choice({"int": ["int", "float", "complex"], "float": ["float", "float", "complex"], "complex": ["complex", "complex", "float"]}[res])
+        name = src if r.random() < 0.6 else r.choice(["A", "B", "U", "M"])
+        ctx.scalars.pop(name, None)
+        ctx.arrays[name] = (ty, rows, cols)
+        return {"t": "var", "ty": ty, "x": name, "e": fix(e)}
+
     def _decl(self, ctx):
         r = self.rng
+        if r.random() < 0.3 and any(t != "pname" for t, _, _ in ctx.arrays.values()):
+            ctx2 = [n for n, v in ctx.arrays.items() if v[0] != "pname"]
+            saved = dict(ctx.arrays)
+            ctx.arrays = {n: saved[n] for n in ctx2}
+            try:
+                d = self.array_valued(ctx)
+            finally:
+                for n, v in saved.items():
+                    ctx.arrays.setdefault(n, v)
+            return d
         if r.random() < 0.6:
             ty = r.choice(["int", "float", "float", "complex", "bool", "str"])
             name = r.choice(["x", "y", "n", "m", "beta", "flag", "label", "x"]) if r.random() < 0.8 else r.choice(list(ctx.scalars) or ["x"])
@@ -273,6 +314,8 @@ class Gen:
                     else:
                         v = self.val(empty, 1)
                     d["kw"].append({"k": k, "v": v})
+                if r.random() < 0.15:                      # positional options: evaluated, then ignored
+                    d["args"] = [self.val(Ctx(), 1) for _ in range(r.choice([1, 2]))]
             return d
         s = {"name": r.choice(["prog", "test_1", "Tele"]), "version": "1.0", "target": meta(r.choice(["gaussian", "X8_01", "fock"])),
              "type": meta(r.choice(["tdm", "sampling", "tdm"])), "incs": [], "body": []}
@@ -286,6 +329,10 @@ class Gen:
                 row = [fix(self.expr(Ctx(), 1)) for _ in range(r.choice([1, 2, 3]))]
                 s["body"].append({"t": "arr", "ty": "float", "x": nm, "shape": [], "rows": [row]})
                 ctx.arrays[nm] = ("pname", 1, len(row))
+                continue
+            if c < 0.06 and s["body"]:                      # an earlier item once more, verbatim (whatever was declared again since)
+                import copy
+                s["body"].append(copy.deepcopy(r.choice(s["body"])))
                 continue
             if c < 0.35:
                 s["body"].append(self.decl(ctx))
